@@ -278,6 +278,13 @@ FirstDiff(a, b, p) ==
 (* harness puts the root into a scratch directory); NoFile = parsed from a  *)
 (* string.                                                                  *)
 (*                                                                          *)
+(* The source file of every OTHER node is not written (node.py:354, by      *)
+(* design) and the merge of AyMerge does not carry files.  One way it can   *)
+(* still reach a `!path` node is promotion: a plain list that replaces a    *)
+(* `!path` node hands it all its attributes, the file included (node.py:    *)
+(* 501-518, 524-532 _take_over); merge histories in which a list OF THE     *)
+(* DOCUMENT does so are outside the domain (harness: PathAdoptions).        *)
+(*                                                                          *)
 (* Design mutations (each must be refuted):                                 *)
 (*   ReparseOverridesSourceFile  the name of the text being re-read wins    *)
 (*                    over the mapping's key (`{**data, **kwargs}`)         *)
